@@ -33,3 +33,15 @@ Definition linsolve_wrapper_tol (inner_tol : option Q) : Q :=
 
 (* _did_solve = residual > self.tol: the inner solver is called for a column iff this is true *)
 Definition needs_inner (tol res : Q) : bool := negb (Qle_bool res tol).
+
+(* the test that decides whether the solution of a column the inner solver has just computed is ADDED to the database
+   (LDAWrapper._do_solve_1rhs, inside the loop `for i in range(xnew.shape[-1])` over the solved columns):
+
+       badd = (A @ xnew[..., i])[isel, ...]
+       bnrm0 = np.linalg.norm(badd)                 <- reference: the right-hand side of THIS column, before it is orthogonalised
+       ... badd is orthogonalised against the stored right-hand sides ...
+       bnrm = np.linalg.norm(badd)
+       if not np.isfinite(bnrm) or bnrm <= self.tol * bnrm0: continue      <- adds nothing new: not stored
+
+   (norms as exact rationals; the non-finite case is outside the rationals) *)
+Definition stored (tol bnrm bnrm0 : Q) : bool := negb (Qle_bool bnrm (tol * bnrm0)).
